@@ -62,6 +62,11 @@ void Ctx::checkLeafArgs(int op, const LeafArgs& a, int expectTree, const char* r
         if (a.data[k] != l.data[k]) { addViolation("argcheck", pre + "data-pointer", "data row " + std::to_string(k) + " is not the row of this leaf"); break; }
     for (size_t k = 0; k < a.rhs.size() && k < l.rhs.size(); ++k)
         if (a.rhs[k] != l.rhs[k]) { addViolation("argcheck", pre + "rhs-pointer", "result row " + std::to_string(k) + " is not the row of this leaf"); break; }
+    // the leaf itself is a cell of the grid
+    for (int d = 0; d < 3; ++d) if (l.coord[size_t(d)] < 0 || l.coord[size_t(d)] >= (1L << (height - 1))) {
+        addViolation("argcheck", pre + "outside-grid", "leaf " + cstr(l.coord) + " lies outside the " + std::to_string(1L << (height - 1)) + "^3 grid of the leaf level");
+        break;
+    }
     // particles: original index, unmodified data, inside the leaf's box
     const auto& in = inputs[l.tree];
     const long n = a.n < l.n ? a.n : l.n;
